@@ -31,6 +31,9 @@ structure Org where
                               -- (bit-aligned: std::uninitialized_fill placement-constructs a temporary proxy reference)
   deriving Repr, DecidableEq
 
+/-- counted element objects per pixel: a planar image of a non-trivial channel type constructs every channel of every pixel separately -/
+def Org.epp (o : Org) : Nat := if o.planar then o.chans else 1
+
 def Org.rowSize (o : Org) (al w : Nat) : Nat := (row_size w al o.mstep o.b2m).toNat
 
 /-- total_allocated_size_in_bytes for this organisation -/
@@ -141,21 +144,21 @@ def World.grow (w : World) (b : Option Nat) (n : Nat) : World :=
                                | none => w.heap }
   | none => if n = 0 then w else { w with ub := true }
 
-/-- construct `n` elements in block `b` (default / fill / copy construction: all counted alike).
+/-- construct `n` elements in block `b` (default / fill / copy construction: all counted alike; `o.epp` element objects per pixel).
     Returns false if the fault fired: the elements built so far have been destroyed again by the
     roll-backs of default_construct_range_impl / std::uninitialized_* / the row loops. -/
 def World.construct (w : World) (o : Org) (b : Option Nat) (n : Nat) : World × Bool :=
   if o.nontrivial then
     match w.failC with
     | some k =>
-      if k < n then ({ w with ctor := w.ctor + k, dtor := w.dtor + k, failC := none }, false)
-      else (World.grow { w with ctor := w.ctor + n, failC := some (k - n) } b n, true)
-    | none => (World.grow { w with ctor := w.ctor + n } b n, true)
+      if k < o.epp * n then ({ w with ctor := w.ctor + k, dtor := w.dtor + k, failC := none }, false)
+      else (World.grow { w with ctor := w.ctor + o.epp * n, failC := some (k - o.epp * n) } b n, true)
+    | none => (World.grow { w with ctor := w.ctor + o.epp * n } b n, true)
   else (w.grow b n, true)
 
 /-- destruct_pixels(view) for a view of `n` elements inside block `b` -/
 def World.destruct (w : World) (o : Org) (b : Option Nat) (n : Nat) : World :=
-  let w := if o.nontrivial then { w with dtor := w.dtor + n } else w
+  let w := if o.nontrivial then { w with dtor := w.dtor + o.epp * n } else w
   match b with
   | some b => { w with heap := match w.heap[b]? with
                                | some blk => w.heap.set b { blk with cons := blk.cons - n, over := blk.over || decide (blk.cons < n) }
